@@ -7,6 +7,7 @@ From DC Require Window.Model.
 From DC Require Grid.Model.
 From DC Require Adjustable.Model.
 From DC Require Graph.UltraGraph Graph.Spec Graph.ShortestPath.
+From DC Require Context.Model Context.Spec.
 
 Extraction Language OCaml.
 
@@ -18,4 +19,5 @@ Extraction "model.ml"
   Window.Model.window_model_entry Window.Model.window_spec_entry
   Grid.Model.grid_model_entry Grid.Model.grid_spec_entry
   Adjustable.Model.adjustable_model_entry Adjustable.Model.adjustable_check_entry
-  Graph.UltraGraph.ugraph_model_entry Graph.Spec.ugraph_check_entry Graph.ShortestPath.spath_check_entry.
+  Graph.UltraGraph.ugraph_model_entry Graph.Spec.ugraph_check_entry Graph.ShortestPath.spath_check_entry
+  Context.Model.context_model_entry Context.Spec.context_check_entry.
